@@ -250,14 +250,39 @@ fn main() {
                 shards.push((with_pl, a));
             }
         }
-        let ex = Explorer { report: &report, templates: templates.clone(), depth, max_k, deviations };
+        // phase 1: the depth-1 nodes (checked here) and, for deep passes, the list of accepted
+        // two-action prefixes; phase 2: one shard per prefix, for load balance
+        let split = depth >= 3;
+        let ex1 = Explorer { report: &report, templates: templates.clone(), depth: if split { 1 } else { depth }, max_k, deviations };
+        let prefixes = std::sync::Mutex::new(Vec::<(bool, Action, Action)>::new());
         par_shards(&report, shards.len(), |i, t| {
             let (with_pl, a) = shards[i];
             let h = History::base(11, with_pl);
             if let Some(next) = h.apply(a) {
-                ex.visit(&next, t);
+                ex1.visit(&next, t);
+                if split {
+                    let mut mine = vec![];
+                    for b in next.actions(&templates, &[1, 2]) {
+                        if next.apply(b).is_some() {
+                            mine.push((with_pl, a, b));
+                        }
+                    }
+                    prefixes.lock().unwrap().extend(mine);
+                }
             }
         });
+        if split {
+            let mut prefixes = prefixes.into_inner().unwrap();
+            prefixes.sort_by_key(|(w, a, b)| (*w, a.template, a.prev, a.ts_class, b.template, b.prev, b.ts_class));
+            let ex = Explorer { report: &report, templates: templates.clone(), depth, max_k, deviations };
+            par_shards(&report, prefixes.len(), |i, t| {
+                let (with_pl, a, b) = prefixes[i];
+                let h = History::base(11, with_pl);
+                if let Some(h2) = h.apply(a).and_then(|h1| h1.apply(b)) {
+                    ex.visit(&h2, t);
+                }
+            });
+        }
     }
     report.set("passes_depth_sets_deviations_templates", json!(passes));
     report.set("deviation_bound_completed", json!(passes.iter().map(|p| p.2).max()));
